@@ -77,7 +77,12 @@ def _run_task(args):
         sess.samples = []
         sess.unsupported = []
         sess.truncated = False
-        getattr(mod, fname)(sess, **kwargs)
+        solve.CURRENT = sess
+        try:
+            getattr(mod, fname)(sess, **kwargs)
+        except Exception as e:  # noqa: BLE001
+            if type(e).__name__ != "TaskAbandoned":
+                raise
         for q in sess.results:
             rep.queries.append({"name": q.name, "verdict": q.verdict, "secs": round(q.secs, 3), "tags": q.tags})
         for q in sess.reach:
